@@ -15,7 +15,7 @@ if not os.path.isdir(wt):
 head = sh("git -C /repo rev-parse HEAD")[1].strip()
 sh("git -C %s reset -q --hard %s && git -C %s clean -fdq" % (wt, head, wt))
 meta = json.load(open(src + "/meta.json"))
-demo = meta.get("demo_cmd", "")
+demo = meta.get("demo_cmd", "").split("   (")[0].split("  (")[0].split("  #")[0].strip()
 # normalise the demo command to run against the scratch worktree
 cmd = demo.replace("/tmp/seed/%s-wt" % pid, wt).replace("<repo>", wt)
 if wt not in cmd:
